@@ -250,6 +250,31 @@ func runC15(c *Ctx, w *World, r *Report) {
 		if nAdv == 0 && bad == "" {
 			bad = "Compact never advances Offset"
 		}
+		// the tail may be empty (fresh bitmap, everything compacted away): every Words[k] Compact touches is guarded
+		eachInstr(fn, func(ins ssa.Instruction) {
+			ia, ok := ins.(*ssa.IndexAddr)
+			if !ok || containerRole(ia.X) != ".Words" || bad != "" {
+				return
+			}
+			var lenL Lin
+			found := false
+			eachInstr(fn, func(i2 ssa.Instruction) {
+				if cl, ok := i2.(*ssa.Call); ok {
+					if b, ok := cl.Common().Value.(*ssa.Builtin); ok && b.Name() == "len" && containerRole(cl.Common().Args[0]) == ".Words" {
+						L := fa.Lin(cl)
+						bd := fa.BoundsAt(ia.Block(), fa.Lin(ia.Index).Sub(L))
+						if bd.HasHi && bd.Hi <= -1 {
+							found = true
+						}
+						lenL = L
+					}
+				}
+			})
+			_ = lenL
+			if !found {
+				bad = "Words[" + fa.Lin(ia.Index).String() + "] is read at " + w.InstrPos(ia) + " without len(Words) > index being established: Compact on an empty tail (a fresh bitmap, or after everything was compacted away) panics"
+			}
+		})
 		r.Check(bad == "", "R-COMPACT", n, w.Pos(fn.Pos()), bad, facts...)
 	}
 	// ---- R-SPLIT / R-REBASE per accessor
